@@ -235,6 +235,12 @@ struct RtModel : mcx::Model {
             for(size_t c = 0; c < nch; c++) { size_t n = 0, held = 0; for(OCh::users_iterator j = pp.m_chipChannels[c].users.begin(); !j.is_end(); ++j) { n++; if(j->value.sustained) held++; } if(n == 2 && held == 1) shared = true; if(n == 1 && held == 1) single = true; }
             if(!shared || !single) { fprintf(stderr, "start state 'sharedheld' was not formed (shared channel %d, single held channel %d)\n", (int)shared, (int)single); abort(); }
         }
+        if(sn.find("flood") != std::string::npos) {
+            // every chip channel's user list filled to its fixed capacity: 127 keys on each melodic MIDI channel from 1 up (one timbre; with auto-arpeggio they pile up as users of the same chip channels)
+            for(int ch = 1; ch <= 15; ch++) if(ch != 9) for(int k = 0; k < 127; k++) opn2_rt_noteOn(d, (OPN2_UInt8)ch, (OPN2_UInt8)k, 100);
+            size_t most = 0; OPNMIDIplay &pp = *I->in.play(); for(size_t c = 0; c < pp.m_chipChannels.size(); c++) most = std::max(most, (size_t)pp.m_chipChannels[c].users.size());
+            if(sn.find("arp=1") != std::string::npos && most < 128) { fprintf(stderr, "start state 'flood' was not formed (longest user list %zu)\n", most); abort(); }
+        }
         if(sn.find("busy6same") != std::string::npos) {
             // six key-down notes of one timbre on MIDI channel 0: one chip is full, a 7th note of another timbre must evict or (with arpeggio) evacuate
             if(sn.find("pedal") != std::string::npos) opn2_rt_controllerChange(d, 0, 64, 127);
